@@ -583,6 +583,59 @@ def run_tables(case, ctx):
             rid = t.append(row_like(j, copy.deepcopy(o)))
         ctx.check(rid == j, "add_row", f"row id {rid} expected {j}")
         check_rows(refs[: j + 1], wants[: j + 1], "add_row")
+    # (A2) history with ONE mutable object: inserted, changed in place, inserted again - every insertion must treat
+    # the object as it is at that moment (no memo keyed on identity, no encoded bytes kept from an earlier read)
+    if k >= 2 and isinstance(objs[0], dict) and isinstance(objs[1], dict):
+        ctx.label("alias_history")
+        holder = copy.deepcopy(objs[0])
+        t.add_row(**rows[0], metadata=holder)
+        check_rows(refs + [refs[0]], wants + [wants[0]], "alias.add_row")
+        holder.clear()
+        holder.update(copy.deepcopy(objs[1]))
+        t.add_row(**rows[0], metadata=holder)
+        check_rows(refs + [refs[0], refs[1]], wants + [wants[0], wants[1]], "alias.add_row_after_inplace_change")
+        bad_dicts = [(kind, b) for kind, b in bad if isinstance(b, dict)]
+        if bad_dicts:
+            kind, b = bad_dicts[0]
+            holder.clear()
+            holder.update(copy.deepcopy(b))
+            before = snapshot(t)
+            try:
+                t.add_row(**rows[0], metadata=holder)
+            except rejection_classes(tskit, codec, kind):
+                pass
+            else:
+                ctx.fail("nonconforming_accepted", f"{kind}: an object changed in place after a successful insertion was "
+                                                   f"stored without validation: {b!r}")
+            ctx.check(snapshot(t) == before, "rejection_changed_table", f"{kind} (alias history) raised but the table changed")
+            ctx.label("alias_history_bad")
+        # a row read from the table, its decoded metadata changed in place, assigned to another row
+        if wants[0] is not R.Undecodable and wants[1] is not R.Undecodable:
+            row = t[k]
+            md = row.metadata
+            if isinstance(md, dict):
+                md.clear()
+                md.update(copy.deepcopy(objs[1]))
+                t[k] = row
+                check_rows(refs + [refs[1], refs[1]], wants + [wants[1], wants[1]], "alias.setitem_after_inplace_change")
+                if bad_dicts:
+                    kind, b = bad_dicts[0]
+                    row = t[k + 1]
+                    md = row.metadata
+                    md.clear()
+                    md.update(copy.deepcopy(b))
+                    before = snapshot(t)
+                    try:
+                        t[k] = row
+                    except rejection_classes(tskit, codec, kind):
+                        pass
+                    else:
+                        ctx.fail("nonconforming_accepted", f"{kind}: row metadata changed in place to {b!r} was stored by "
+                                                           "row assignment without validation")
+                    ctx.check(snapshot(t) == before, "rejection_changed_table",
+                              f"{kind} (alias setitem) raised but the table changed")
+        t.truncate(k)
+        check_rows(refs, wants, "alias.truncate")
     # (B) non-conforming objects are rejected and leave the table unchanged
     for i, (kind, b) in enumerate(bad):
         ctx.label("reject_" + kind)
